@@ -247,6 +247,10 @@ pub fn shard_main(progs: &[(usize, fn(&mut Ctx))]) {
 #[derive(Debug, Clone, PartialEq, Eq, Hash)]
 pub struct Nd(pub u8);
 
+/// a `Copy + Default` type that is neither `Send` nor `Sync` (instantiates type parameters in the C05 marker probe)
+#[derive(Debug, Clone, Copy, Default, PartialEq, Eq)]
+pub struct NotSend(pub std::marker::PhantomData<*const u8>);
+
 /// custom parse error for `parse_err_ty` / `parse_err_fn`
 #[derive(Debug, Clone, PartialEq, Eq)]
 pub struct MyErr(pub String);
